@@ -169,6 +169,11 @@ def oracle(rec):
             return f"call base={c['base']}: top-5 lists malformed: {td} {ta}"
         if td != sorted(td, reverse=True):
             return f"call base={c['base']}: top-5 durations not in decreasing order: {td}"
+        # a map-family call has just ended: every worker synced its longest tasks when it took the (lethal or non-lethal)
+        # pill, so the merged list accounts for the tasks of this call
+        if c['kind'] != 'apply_batch' and c['input'] != 'ndarray' and not c['params'].get('worker_lifespan') and len(td) < min(5, ran):
+            return (f"call base={c['base']}: {ran} tasks of this call were executed but the top-5 list has only {len(td)} entries "
+                    f"(keep_alive={sc['pool']['keep_alive']})")
     return None
 
 
